@@ -441,4 +441,69 @@ Proof.
   rewrite sum_n_delta_l by exact Hm. rewrite sum_n_delta_l by exact Hl. rewrite sum_n_delta_l by exact HL. reflexivity.
 Qed.
 
+(* ---- the two-site supercore of the DMRG products: projection of the dense product on the TWO-SITE frame of the iterate ---- *)
+Lemma phi_bck_unit_left (P : nat -> nat -> nat -> R) (c2 : core4 R) (x2 : core3 R) rc m2 L S R' : (m2 < mm c2)%nat -> (L < rc)%nat ->
+  phi_bck P (unit3 1 (mm c2) rc 0 m2 L) c2 x2 0%nat S R' = super_right c2 x2 P m2 L S R'.
+Proof.
+  intros Hm HL. unfold phi_bck, super_right, unit3. cbn [r1 e3].
+  apply sum_n_ext. intros n2 _.
+  rewrite (sum_n_ext (mm c2) _ (fun m => delta m2 m * sum_n (q1 c2) (fun S' => sum_n (r1 x2) (fun R'' => P L S' R'' * e4 c2 S m n2 S' * e3 x2 R' n2 R'')))).
+  - rewrite sum_n_delta_l by exact Hm. reflexivity.
+  - intros m _.
+    rewrite (sum_n_ext rc _ (fun L0 => delta L L0 * (delta m2 m * sum_n (q1 c2) (fun S' => sum_n (r1 x2) (fun R'' => P L0 S' R'' * e4 c2 S m n2 S' * e3 x2 R' n2 R''))))).
+    + rewrite sum_n_delta_l by exact HL. reflexivity.
+    + intros L0 _. rewrite <- !sum_n_scal_l. apply sum_n_ext. intros S' _. rewrite <- !sum_n_scal_l. apply sum_n_ext. intros R'' _.
+      rewrite !conj_mul, !conj_delta. unfold delta at 1. cbn [Nat.eqb]. ring.
+Qed.
+
+Lemma supercore_local_product (PL PR : nat -> nat -> nat -> R) (c1 c2 : core4 R) (x1 x2 : core3 R) rc l m1 m2 L : (m2 < mm c2)%nat -> (L < rc)%nat ->
+  supercore PL c1 x1 c2 x2 PR l m1 m2 L = e3 (local_product PL c1 (phi_bck PR (unit3 1 (mm c2) rc 0 m2 L) c2 x2) x1) l m1 0%nat.
+Proof.
+  intros Hm HL. unfold supercore. cbn [local_product e3]. unfold local_mat.
+  apply sum_n_ext. intros r _. apply sum_n_ext. intros n _. apply sum_n_ext. intros R' _.
+  f_equal. apply sum_n_ext. intros s _. apply sum_n_ext. intros S _.
+  rewrite (phi_bck_unit_left PR c2 x2 rc m2 L S R' Hm HL). reflexivity.
+Qed.
+
+(* THE DMRG SUPERCORE IS THE PROJECTED DENSE PRODUCT on the two-site frame: W[l, m1, m2, L] = < F_y e_(l,m1,m2,L), A x >, where F_y e carries the cores of the
+   iterate y outside positions k, k+1 and the pair of unit cores (l, m1 | m2, L) with a bond of rank one at those positions *)
+Theorem supercore_galerkin (ypre ypost xpre xpost : tt R) (Apre Apost : ttm R) (c1 c2 : core4 R) (x1 x2 : core3 R) ra rc l m1 m2 L :
+  length Apre = length ypre -> length xpre = length ypre -> length Apost = length ypost -> length xpost = length ypost ->
+  (l < ra)%nat -> (L < rc)%nat -> (m1 < mm c1)%nat -> (m2 < mm c2)%nat -> nn x1 = nm c1 ->
+  wf (ypre ++ unit3 ra (mm c1) 1 l m1 0 :: unit3 1 (mm c2) rc 0 m2 L :: ypost) -> wf4 (Apre ++ c1 :: c2 :: Apost) -> wf (xpre ++ x1 :: x2 :: xpost) ->
+  supercore (phiF ypre Apre xpre ones3) c1 x1 c2 x2 (phiB ypost Apost xpost) l m1 m2 L
+  = sum_idx (shapeM (Apre ++ c1 :: c2 :: Apost)) (fun is_ => sum_idx (shapeN (Apre ++ c1 :: c2 :: Apost)) (fun js =>
+      rconj (entry (ypre ++ unit3 ra (mm c1) 1 l m1 0 :: unit3 1 (mm c2) rc 0 m2 L :: ypost) is_) * entry4 (Apre ++ c1 :: c2 :: Apost) is_ js
+      * entry (xpre ++ x1 :: x2 :: xpost) js)).
+Proof.
+  intros H1 H2 H3 H4 Hl HL Hm1 Hm2 Hn Wy WA Wx.
+  rewrite (supercore_local_product _ _ c1 c2 x1 x2 rc l m1 m2 L Hm2 HL).
+  change (phi_bck (phiB ypost Apost xpost) (unit3 1 (mm c2) rc 0 m2 L) c2 x2)
+    with (phiB (unit3 1 (mm c2) rc 0 m2 L :: ypost) (c2 :: Apost) (x2 :: xpost)).
+  apply (local_product_galerkin ypre (unit3 1 (mm c2) rc 0 m2 L :: ypost) xpre (x2 :: xpost) Apre (c2 :: Apost) c1 x1 ra 1%nat l m1 0%nat);
+    try assumption; try lia; simpl; lia.
+Qed.
+
+(* ... hence a component of the product that the two-site frame annihilates is INVISIBLE to the sweep (the mechanism of the block-blind guess,
+   DESIGN 9b): if A x = u + v entry by entry and the frame element is orthogonal to v, the supercore entry is the projection of u alone *)
+Corollary supercore_blind_component (ypre ypost xpre xpost : tt R) (Apre Apost : ttm R) (c1 c2 : core4 R) (x1 x2 : core3 R) ra rc l m1 m2 L (u v : list nat -> R) :
+  length Apre = length ypre -> length xpre = length ypre -> length Apost = length ypost -> length xpost = length ypost ->
+  (l < ra)%nat -> (L < rc)%nat -> (m1 < mm c1)%nat -> (m2 < mm c2)%nat -> nn x1 = nm c1 ->
+  wf (ypre ++ unit3 ra (mm c1) 1 l m1 0 :: unit3 1 (mm c2) rc 0 m2 L :: ypost) -> wf4 (Apre ++ c1 :: c2 :: Apost) -> wf (xpre ++ x1 :: x2 :: xpost) ->
+  (forall is_, length is_ = length (shapeM (Apre ++ c1 :: c2 :: Apost)) -> Forall2 lt is_ (shapeM (Apre ++ c1 :: c2 :: Apost)) ->
+     sum_idx (shapeN (Apre ++ c1 :: c2 :: Apost)) (fun js => entry4 (Apre ++ c1 :: c2 :: Apost) is_ js * entry (xpre ++ x1 :: x2 :: xpost) js) = u is_ + v is_) ->
+  sum_idx (shapeM (Apre ++ c1 :: c2 :: Apost)) (fun is_ => rconj (entry (ypre ++ unit3 ra (mm c1) 1 l m1 0 :: unit3 1 (mm c2) rc 0 m2 L :: ypost) is_) * v is_) = 0 ->
+  supercore (phiF ypre Apre xpre ones3) c1 x1 c2 x2 (phiB ypost Apost xpost) l m1 m2 L
+  = sum_idx (shapeM (Apre ++ c1 :: c2 :: Apost)) (fun is_ => rconj (entry (ypre ++ unit3 ra (mm c1) 1 l m1 0 :: unit3 1 (mm c2) rc 0 m2 L :: ypost) is_) * u is_).
+Proof.
+  intros H1 H2 H3 H4 Hl HL Hm1 Hm2 Hn Wy WA Wx Hsplit Hblind.
+  rewrite (supercore_galerkin ypre ypost xpre xpost Apre Apost c1 c2 x1 x2 ra rc l m1 m2 L) by assumption.
+  set (E := entry (ypre ++ unit3 ra (mm c1) 1 l m1 0 :: unit3 1 (mm c2) rc 0 m2 L :: ypost)) in *.
+  transitivity (sum_idx (shapeM (Apre ++ c1 :: c2 :: Apost)) (fun is_ => rconj (E is_) * u is_ + rconj (E is_) * v is_)).
+  - apply sum_idx_ext. intros is_ Hli HFi.
+    transitivity (rconj (E is_) * (u is_ + v is_)); [|ring].
+    rewrite <- (Hsplit is_ Hli HFi). rewrite <- sum_idx_scal_l. apply sum_idx_ext. intros js _ _. ring.
+  - rewrite sum_idx_add, Hblind. ring.
+Qed.
+
 End StationaryP.
